@@ -9,6 +9,7 @@ import (
 	"net/http"
 	"net/http/httptest"
 	"net/url"
+	"os"
 	"strings"
 	"sync"
 	"time"
@@ -185,6 +186,8 @@ type subState struct {
 	events   []*sess // one-time events (a record each, no session)
 	notify   string  // path of the notification URI registered by the latest successful create
 	creates  int
+	// operation blockfile: the subscriber's CDR file cannot be written at the moment
+	fileBlocked bool
 }
 
 type World struct {
@@ -193,6 +196,8 @@ type World struct {
 	chgID   int32
 	isn     int32
 	foreign *subState // a subscriber with a live session used for foreign-ref probes
+	// operation peers: which collaborators are unreachable at the moment
+	ratingDown, abmfDown bool
 }
 
 type Result struct {
@@ -228,6 +233,7 @@ var chargingIDSeq int32 = 1000
 
 func NewWorld(hst Hist) *World {
 	w := &World{}
+	verifapi.SetPeerPorts(env.RfPort, env.AbmfPort) // (whatever an earlier history left behind)
 	base := ""
 	for _, sp := range hst.Subs {
 		st := &subState{}
@@ -492,6 +498,32 @@ func (w *World) Exec(op Op) *Result {
 				se.live, se.released = false, true
 			}
 		}
+	case "peers":
+		// the rating function and/or the account balance function become unreachable (connection refused), or
+		// reachable again
+		rf, ab := env.RfPort, env.AbmfPort
+		switch op.Name {
+		case "rating-down":
+			rf = 1
+		case "abmf-down":
+			ab = 1
+		case "both-down":
+			rf, ab = 1, 1
+		}
+		verifapi.SetPeerPorts(rf, ab)
+		w.ratingDown, w.abmfDown = rf == 1, ab == 1
+		res.Status = http.StatusNoContent
+	case "blockfile":
+		// the subscriber's CDR file cannot be written: a directory is in its place
+		f := "/tmp/" + st.supi + ".cdr"
+		_ = os.Remove(f)
+		_ = os.Mkdir(f, 0o755)
+		st.fileBlocked = true
+		res.Status = http.StatusNoContent
+	case "unblockfile":
+		_ = os.Remove("/tmp/" + st.supi + ".cdr")
+		st.fileBlocked = false
+		res.Status = http.StatusNoContent
 	case "fill":
 		lv := st.live()
 		if len(lv) == 0 {
